@@ -1,3 +1,131 @@
 import KsiVerif.Util.DriverMain
-open KsiVerif
-def main : IO Unit := runDriver (fun i _ => "skip no-model-yet " ++ i)
+import KsiVerif.Model.Sha
+import KsiVerif.Model.Tlv
+import KsiVerif.Spec.HashChain
+/-! Model driver for C03 — protocol in harness/exec_c03.c. -/
+open KsiVerif KsiVerif.HashChain KsiVerif.HashChainSpec
+
+def H : HashFn := fun id msg => (Sha.hashById id).map (· msg)
+
+def parseLink (s : String) : Option Link :=
+  match s.splitOn ":" with
+  | [d, lc, k, hx] =>
+    match (if lc == "x" then some 0 else lc.toNat?), ofHex hx with
+    | some n, some b =>
+      let sib : Option Sibling :=
+        if k == "i" then (match b with | a :: dg => some (.imprint a.toNat dg) | [] => none)
+        else if k == "l" then some (.legacyId b)
+        else match Tlv.parseBlob b with     -- metadata: the element's payload is what is hashed
+          | .ok (.raw _ _ _ p) => some (.metaData p)
+          | _ => none
+      sib.map fun sb => ⟨d == "L", n, sb⟩
+    | _, _ => none
+  | _ => none
+
+def parseLinks (s : String) : Option (List Link) :=
+  if s == "-" then some [] else (s.splitOn ";").mapM parseLink
+
+def parseCalLinks (s : String) : Option (List CalLink) :=
+  if s == "-" then some [] else
+  (s.splitOn ";").mapM fun t =>
+    match t.splitOn ":" with
+    | [d, hx] => match ofHex hx with
+      | some (a :: dg) => some ⟨d == "L", a.toNat, dg⟩
+      | _ => none
+    | _ => none
+
+def parseBits (s : String) : List Bool :=
+  if s == "-" then [] else s.toList.map (· == '1')
+
+def showAgg (r : Except Nat (Nat × Option Bytes)) : String :=
+  match r with
+  | .ok (e, some c) => s!"0 {e} {toHex c}"
+  | .ok (e, none) => s!"0 {e} -"
+  | .error e => s!"{e} - -"
+
+def verdict (cls model impl : String) (spec : Option String) : String :=
+  match spec with
+  | some why => s!"specfail {cls} {why}"
+  | none => if model == impl then s!"ok {cls}" else s!"diff {cls} model={model}"
+
+def aggOracle (algo start : Nat) (input : Bytes) (links : List Link) (ow : List String) : Option String :=
+  match ow with
+  | ["0", e, imp] =>
+    if links.isEmpty then none else
+    match refChain H algo start input links with
+    | none => some "accepted-chain-the-formula-rejects(level/correction-out-of-range)"
+    | some (lvl, c) =>
+      if toString lvl != e then some "root-level-differs-from-formula"
+      else if toHex c != imp then some "root-hash-differs-from-formula" else none
+  | _ => none
+
+def handle (inp out : String) : String :=
+  let ow := words out
+  match words inp with
+  | ["hash", algo, hx] =>
+    match algo.toNat?, ofHex hx with
+    | some a, some b =>
+      let ms := match H a b with
+        | some d => s!"0 {toHex (UInt8.ofNat a :: d)}"
+        | none => s!"{St.UNAVAILABLE_HASH_ALGORITHM} -"
+      verdict s!"hash:{a}" ms out none
+    | _, _ => "skip bad-hash-args"
+  | ["agg", algo, start, inHex, ls] =>
+    match algo.toNat?, start.toNat?, ofHex inHex, parseLinks ls with
+    | some a, some st, some input, some links =>
+      let m := aggregate H a links input st
+      verdict s!"agg:{match m with | .ok _ => "ok" | .error e => s!"err{e}"}:n{min links.length 9}"
+        (showAgg m) out (aggOracle a st input links ow)
+    | _, _, _, _ => "skip bad-agg-args"
+  | ["aggc", algo, inHex, ls, s1, s2] =>
+    match algo.toNat?, ofHex inHex, parseLinks ls, s1.toNat?, s2.toNat? with
+    | some a, some input, some links, some l1, some l2 =>
+      let one (st : Nat) : String :=
+        if st > 0xff then s!"{St.INVALID_ARGUMENT} - -" else showAgg (aggregate H a links input st)
+      let spec := match ow with
+        | [a1, b1, c1, a2, b2, c2] =>
+          (aggOracle a l1 input links [a1, b1, c1]).orElse fun _ => aggOracle a l2 input links [a2, b2, c2]
+        | _ => some "short-impl-output"
+      verdict "aggc" s!"{one l1} {one l2}" out spec
+    | _, _, _, _, _ => "skip bad-aggc-args"
+  | ["cal", inHex, ls] =>
+    match ofHex inHex, parseCalLinks ls with
+    | some input, some links =>
+      let ms := match aggregateCalendar H links input with
+        | .ok (some c) => s!"0 {toHex c}"
+        | .ok none => "0 -"
+        | .error e => s!"{e} -"
+      verdict s!"cal:{(ms.splitOn " ").head!}:n{min links.length 9}" ms out none
+    | _, _ => "skip bad-cal-args"
+  | ["caltime", pt, bits] =>
+    match pt.toNat? with
+    | some p =>
+      let sh := parseBits bits
+      let ms := match calTime sh p with
+        | .ok t => s!"0 {t}"
+        | .error e => s!"{e}"
+      let spec : Option String :=
+        match ow with
+        | ["0", t] =>
+          if sh.isEmpty then some "accepted-empty-calendar-chain"
+          else match calLeaf p sh.reverse with
+            | none => some "accepted-shape-impossible-for-publication-time"
+            | some t' => if toString t' != t then some "time-differs-from-calendar-tree" else none
+        | _ => none
+      verdict s!"caltime:{(ms.splitOn " ").head!}" ms out spec
+    | none => "skip bad-caltime-args"
+  | ["shape", bits] =>
+    let d := parseBits bits
+    let ms := match shape d with
+      | .ok s => s!"0 {s}"
+      | .error e => s!"{e}"
+    let spec : Option String :=
+      match ow with
+      | ["0", s] =>
+        if d.length > 63 then some "accepted-chain-without-64-bit-index"
+        else if toString (refShape d) != s then some "shape-differs-from-reference" else none
+      | _ => none
+    verdict s!"shape:{(ms.splitOn " ").head!}" ms out spec
+  | _ => "skip unknown-op"
+
+def main : IO Unit := runDriver handle
